@@ -158,7 +158,9 @@ def compile_code(
                 if not value:
                     tag = tag[3:].strip()
 
-                if hasattr(options, tag):
+                # only the option fields; hasattr() is also true for dunder
+                # attributes and e.g. setattr(options, "__class__", True) raises
+                if tag in CompileOptions.__dataclass_fields__:
                     setattr(options, tag, value)
 
     set_output_mode(OutputMode.COMPACT if options.compact else OutputMode.VERBOSE)
